@@ -100,7 +100,10 @@ def judge(text, ctx, expected):
         got = _take_slot(out[1], CONTEXTS[ctx][2])
     except (AttributeError, IndexError, TypeError) as e:
         return ("frame", f"slot not found: {e!r}")
-    obs = M.normalise_observed(core.canon(got))
+    obs = core.canon(got)
+    if obs != expected:
+        # only now (off the hot path) blank out what the conventions leave open
+        obs = M.normalise_observed(obs)
     if obs != expected:
         d = core.first_diff(expected, obs)
         return ("mismatch", "expected-vs-observed first difference: " + "/".join(d or ()))
